@@ -1072,7 +1072,7 @@ def makeIrForQuery (S : SchemaView) (q : Query) : Res CompileErr Unit :=
           if !(duplicateNames st.globalOutputs).isEmpty then
             if (duplicateRefs st.globalOutputs).all (fun f => (collectVids comp).contains f.vid) then
               .ok [.MultipleOutputsWithSameName]
-            else .panic .dupOutputVertexIndex
+            else .panic .dupOutputGlobalIndex
           else .ok []
         dupErrs >>= fun dupErrs =>
         let errors := paramErrs ++ varErrs ++ tagErrs ++ dupErrs
